@@ -342,6 +342,16 @@ func (r *Run) exec(in ssa.Instruction) {
 		r.set(i, Iface{T: r.eng.canon(i.X.Type()), V: r.get(i.X)})
 	case *ssa.MakeMap:
 		mt := under(i.Type()).(*types.Map)
+		if i.Reserve != nil {
+			// make(map, hint) allocates buckets for hint entries up front (a
+			// negative or impossible hint is ignored by the runtime)
+			if h, ok := r.get(i.Reserve).(*Term); ok && !h.IsConst() {
+				if h.W < 64 {
+					h = r.ts.SExt(h, 64)
+				}
+				r.check(r.ts.SLE(h, r.ts.Const(64, uint64(r.allocMax))), "alloc", "make map hint: input-controlled allocation larger than bound", fmt.Sprintf("bound=%d", r.allocMax))
+			}
+		}
 		r.set(i, Ptr{Obj: r.newMap(mt)})
 	case *ssa.MakeSlice:
 		st := under(i.Type()).(*types.Slice)
